@@ -54,6 +54,9 @@ def census():
                 sites.append({"file": f, "fn": enclosing(m.start()), "container": ident, "how": m.group(1)})
             for m in re.finditer(r"for\s+[^;{]*?\bin\s+&?(?:mut\s+)?(?:self\.)?(?:\w+\.)*%s\s*\{" % re.escape(ident), src):
                 sites.append({"file": f, "fn": enclosing(m.start()), "container": ident, "how": "for"})
+        # anonymous containers: `….collect::<HashSet<_>>().into_iter()` and the like
+        for m in re.finditer(r"collect::<\s*(?:ahash::|std::collections::)?(HashSet|HashMap)\b[^;]*?>\s*\(\)\s*%s" % ITER, src):
+            sites.append({"file": f, "fn": enclosing(m.start()), "container": "<collect::" + m.group(1) + ">", "how": m.group(2)})
     # canonical, with ordinals per (file, fn, container, how)
     out, seen = [], {}
     for s in sites:
